@@ -44,6 +44,9 @@ def cases(tier):
             pls = pq[:6] if tier == "quick" else (A.placements_medium() if box != (3, 2, 2) else pq)
             for pl in pls:
                 out.append({"fam": "vox", "box": list(box), "i": i, "pl": pl})
+            if i % 4 == 0:
+                for pl in A.placements_tiny():
+                    out.append({"fam": "vox", "box": list(box), "i": i, "pl": pl})
     for n in (4, 5):
         polys = _ccw_polys(n)
         for i, c in enumerate(polys):
